@@ -2,7 +2,7 @@
 
 PROP = dict(
     level="proof",
-    lean_modules=['PopsModel.Props.C10'],
+    lean_modules=['PopsModel.Props.C10', 'PopsModel.Props.NonVacuous.Host'],
     theorems=['Pops.C10_removal', 'Pops.C10_pesticide', 'Pops.C10_pesticide_end', 'Pops.C10_coef_zero_one', 'Pops.C10_resistant_not_infected', 'Pops.C10_when', 'Pops.C10_cleared_never_run'],
     commands=['hp.treat', 'hp.treatend', 'hp.manage', 'hp.treatlist'],
     runs={
